@@ -147,12 +147,12 @@ Proof. vm_compute. repeat split; reflexivity. Qed.
    gen_query_logN_init / _step: the initial minimum and the body of the row loop (after the column was stored into
    buckets[row]); the model's lquery_t is the fold of the generated step over the rows from the generated initial value.
    gen_add_logN_n_added: n_added_records[0] after the first statement; gen_add_logN_post: (min_count, result of
-   _log_counter) -> None for the early return, else Some new_count (log8: after the uint8 cast); gen_add_logN_cell: the
+   _log_counter) -> None for the early return, else Some new_count (log8: after the uint8 cast, vacuous below 2^8); gen_add_logN_cell: the
    body of the update loop, (cms[row, buckets[row]], new_count) -> the cell afterwards (truncated to the array's type).
    KernelTieLogAdd.add_logN_assembled is the state built from these, the query and the model's log_counter (whose loop body
    is tied in C06_log_counter_source_tie): table unchanged on None, else every cell (row < depth, column = the row's
    bucket) replaced by gen_add_logN_cell *)
-From Sketchnu Require KernelsLog KernelTieLogQuery KernelTieLogAdd.
+From Sketchnu Require KernelsLog KernelTieLogQuery.
 Theorem C05_log_query_source_tie :
   (forall umax : Z, 0 <= umax < 2^16 -> KernelsLog.gen_query_log16_init umax = umax) /\
   (forall umax : Z, 0 <= umax < 2^8 -> KernelsLog.gen_query_log8_init umax = umax) /\
@@ -167,11 +167,18 @@ Theorem C05_log_query_source_tie :
 Proof. exact KernelTieLogQuery.tie_query_log. Qed.
 Print Assumptions C05_log_query_source_tie.
 
+Example C05_log_query_source_tie_nonvacuous :
+  (KernelsLog.gen_query_log16_init 65535, KernelsLog.gen_query_log8_init 255) = (65535, 255) /\
+  fold_left (fun acc c => KernelsLog.gen_query_log8_step acc c) [7; 3; 9] (KernelsLog.gen_query_log8_init 255) = 3 /\
+  fold_left (fun acc c => KernelsLog.gen_query_log16_step acc c) [700; 300; 900] (KernelsLog.gen_query_log16_init 65535) = 300.
+Proof. vm_compute. repeat split; reflexivity. Qed.
+
+From Sketchnu Require KernelTieLogAdd.
 Theorem C05_log_add_source_tie :
   (forall na v : Z, 0 <= na -> 0 <= v -> na + v < 2^64 ->
      KernelsLog.gen_add_log16_n_added na v = na + v /\ KernelsLog.gen_add_log8_n_added na v = na + v) /\
   (forall mc nc : Z, KernelsLog.gen_add_log16_post mc nc = if nc =? mc then None else Some nc) /\
-  (forall mc nc : Z, KernelsLog.gen_add_log8_post mc nc = if wrap8 nc =? mc then None else Some (wrap8 nc)) /\
+  (forall mc nc : Z, 0 <= nc < 2^8 -> KernelsLog.gen_add_log8_post mc nc = if nc =? mc then None else Some nc) /\
   (forall old nc : Z, 0 <= nc < 2^16 -> KernelsLog.gen_add_log16_cell old nc = if old <? nc then nc else old) /\
   (forall old nc : Z, 0 <= nc < 2^8 -> KernelsLog.gen_add_log8_cell old nc = if old <? nc then nc else old) /\
   (forall depth bucket nr umax powneg (s : CmsLog.lsk) (k : key) (v : Z),
@@ -179,22 +186,22 @@ Theorem C05_log_add_source_tie :
      CmsLogProofs.lsk_eq (CmsLog.add_log16 depth bucket nr umax powneg s k v)
                          (KernelTieLogAdd.add_log16_assembled depth bucket nr umax powneg s k v)) /\
   (forall depth bucket nr umax powneg (s : CmsLog.lsk) (k : key) (v : Z),
-     0 <= v -> 0 <= CmsLog.ln_added s -> CmsLog.ln_added s + v < 2^64 ->
+     umax < 2^8 -> CmsLogProofs.lsk_ok umax s -> 0 <= v -> 0 <= CmsLog.ln_added s -> CmsLog.ln_added s + v < 2^64 ->
      CmsLogProofs.lsk_eq (CmsLog.add_log8 depth bucket nr umax powneg s k v)
                          (KernelTieLogAdd.add_log8_assembled depth bucket nr umax powneg s k v)).
 Proof. exact KernelTieLogAdd.tie_add_log. Qed.
 Print Assumptions C05_log_add_source_tie.
 
-Example C05_log_source_tie_nonvacuous :
-  (KernelsLog.gen_query_log16_init 65535, KernelsLog.gen_query_log8_init 255) = (65535, 255) /\
-  fold_left (fun acc c => KernelsLog.gen_query_log8_step acc c) [7; 3; 9] (KernelsLog.gen_query_log8_init 255) = 3 /\
+Example C05_log_add_source_tie_nonvacuous :
   (KernelsLog.gen_add_log16_n_added 10 4, KernelsLog.gen_add_log8_n_added 10 4) = (14, 14) /\
   map (fun mn => KernelsLog.gen_add_log16_post (fst mn) (snd mn)) [(3, 3); (3, 5)] = [None; Some 5] /\
-  map (fun mn => KernelsLog.gen_add_log8_post (fst mn) (snd mn)) [(3, 3); (3, 5); (4, 260)] = [None; Some 5; None] /\
+  map (fun mn => KernelsLog.gen_add_log8_post (fst mn) (snd mn)) [(3, 3); (3, 5)] = [None; Some 5] /\
   map (fun on => KernelsLog.gen_add_log8_cell (fst on) (snd on)) [(3, 8); (8, 8); (9, 8)] = [8; 8; 9] /\
+  map (fun on => KernelsLog.gen_add_log16_cell (fst on) (snd on)) [(3, 800); (800, 800); (900, 800)] = [800; 800; 900] /\
   (* one add of 4 on the empty 2-row sketch, num_reserved = 15: reserved range, no draw *)
   let rs := {| CmsLog.rbatch := []; CmsLog.rptr := 0; CmsLog.rfuture := [] |} in
   let s := KernelTieLogAdd.add_log8_assembled 2 (fun r _ => r) 15 255 (fun _ => CmsLog.f_one) (CmsLog.lempty rs) [97] 4 in
+  CmsLogProofs.lsk_ok 255 (CmsLog.lempty rs) /\
   (CmsLog.lcms s 0%nat 0%nat, CmsLog.lcms s 1%nat 1%nat, CmsLog.lcms s 1%nat 0%nat, CmsLog.lcms s 2%nat 2%nat, CmsLog.ln_added s)
   = (4, 4, 0, 0, 4).
-Proof. vm_compute. repeat split; reflexivity. Qed.
+Proof. split; [|split; [|split; [|split; [|split; [|split]]]]]; try (vm_compute; reflexivity). intros r c. vm_compute. split; discriminate. Qed.
